@@ -97,7 +97,9 @@ func (w *WarcIndex) Scan() {
 	}
 	var names []string
 	for _, e := range ents {
-		if !e.IsDir() {
+		// WARC files only: when --warc-temp-dir points into this directory, spooled record bodies ("warc-NNN", "zeno-NNN")
+		// sit next to them and are left behind by a kill
+		if !e.IsDir() && strings.Contains(e.Name(), ".warc") {
 			names = append(names, e.Name())
 		}
 	}
